@@ -161,6 +161,12 @@ def ret_value(v):
     return v
 
 
+def slow_ret(seconds, v):
+    """ordinary long-running work: nothing happens on any connection for `seconds`"""
+    time.sleep(seconds)
+    return ('slow', v)
+
+
 def raise_exc(kind, args):
     if kind == 'ValueError':
         raise ValueError(*args)
